@@ -228,7 +228,7 @@ def step (ops : FloatOps F) (s : State F) (now : Nat) : R (State F) :=
   let rttMs := s.rate.rttMs.getD INITIAL_RTT_ESTIMATE_MS      -- `unwrap_or(INITIAL_RTT_ESTIMATE_MS)`
   let rtoMs := s.rate.rtoMs.getD INITIAL_RTO_ESTIMATE_MS      -- `unwrap_or(INITIAL_RTO_ESTIMATE_MS)`
   let s := { s with nowMs := nowMs, rttMs := rttMs, rtoMs := rtoMs }
-  match FrameQ.forgetFrames s.fq (nowMs - rttMs * FORGET_RTT_MULT) s.rate.rttMs with   -- saturating_sub
+  match FrameQ.forgetFrames s.fq (nowMs - max (rttMs * FORGET_RTT_MULT) rtoMs) s.rate.rttMs with   -- saturating_sub
   | .error t => .error t
   | .ok fq =>
     let s := fillFlushAlloc ops { s with fq := fq } now
